@@ -111,14 +111,24 @@ def mutate(kind, v, rng):
         if not v[cm]:
             return mutate_item(kind, v, rng)
         k = rng.randrange(len(v[cm]))
-        new = max(v[cm]) + 1 if max(v[cm]) < 30000 else min(v[cm]) - 1
-        if kind in ("platdata", "data2d") and new < 0:
-            new = 5
-            while new in v[cm]:
-                new += 1
-        v[cm][k] = new
+        v[cm][k] = free_channel(v[cm])
         return v, "channel"
     return mutate_item(kind, v, rng)
+
+
+def relabel(label, maxlen):
+    """a different valid label: one more character, or another last character when the field is full"""
+    if len(label) < maxlen:
+        return label + [90]
+    return label[:-1] + [91 if label[-1] == 90 else 90]
+
+
+def free_channel(chans):
+    """an in-range channel number (valid for i16 and u16 maps alike) that is not in use"""
+    c = 5
+    while c in chans:
+        c += 1
+    return c
 
 
 def add_item(kind, v, rng):
@@ -128,19 +138,19 @@ def add_item(kind, v, rng):
         k = A.NCOMP[kind]
         v[ip].append([[120], A.gen_frames(rng, k, n)])
         if kind == "emg":
-            v[3].append(max(v[3] + [0]) + 1 if max(v[3] + [0]) < 30000 else min(v[3]) - 1)
+            v[3].append(free_channel(v[3]))
     elif kind == "platdata":
         v[ip].append(A.gen_frames(rng, 6, v[2]))
-        v[3].append(max(v[3] + [0]) + 1)
+        v[3].append(free_channel(v[3]))
     elif kind == "platcalib":
         v[1].append([[80], A.gen_vec(rng, 2), A.gen_vec(rng, 12)])
-        v[0].append(max(v[0] + [0]) + 1 if max(v[0] + [0]) < 30000 else min(v[0]) - 1)
+        v[0].append(free_channel(v[0]))
     elif kind == "data2d":
         v[6].append([None if rng.random() < 0.3 else [[A.gen_f32(rng), A.gen_f32(rng)]] for _ in range(v[0])])
         v[1] += 1
     elif kind == "calib":
         v[6].append([[A.gen_f64(rng) for _ in range(22 if v[0] == 1 else 156)], A.gen_vp(rng)])
-        v[5].append(max(v[5] + [0]) + 1 if max(v[5] + [0]) < 30000 else min(v[5]) - 1)
+        v[5].append(free_channel(v[5]))
     elif kind == "optical":
         v[1].append([3, [65], [66], [67], [0, 0, 1, 1]])
     else:
@@ -155,7 +165,7 @@ def mutate_item(kind, v, rng):
     it = items[k]
     if kind in ("data3d", "emg", "force3d"):
         if rng.random() < 0.3:
-            it[0] = it[0][:-1] if it[0] and rng.random() < 0.5 else (it[0] + [90])[:255]
+            it[0] = it[0][:-1] if it[0] and rng.random() < 0.5 else relabel(it[0], 255)
             return v, "label"
         frames = it[1]
         j = rng.randrange(len(frames))
@@ -180,7 +190,7 @@ def mutate_item(kind, v, rng):
     if kind == "platcalib":
         r = rng.random()
         if r < 0.3:
-            it[0] = (it[0] + [90])[:255]
+            it[0] = relabel(it[0], 255)
             return v, "label"
         part = it[1] if r < 0.6 else it[2]
         c = rng.randrange(len(part))
@@ -214,14 +224,14 @@ def mutate_item(kind, v, rng):
             return v, "logical index"
         if r < 0.75:
             f = rng.choice([1, 2, 3])
-            it[f] = (it[f] + [90])[:31]
+            it[f] = relabel(it[f], 31)
             return v, "label"
         it[4][rng.randrange(4)] += 1 if it[4][0] < 1000 else -1
         return v, "viewport"
     # events
     r = rng.random()
     if r < 0.3:
-        it[0] = (it[0] + [90])[:255]
+        it[0] = relabel(it[0], 255)
         return v, "label"
     if r < 0.5 and len(it[2]) <= 1:
         it[1] = 1 - it[1]
@@ -303,9 +313,11 @@ def files(ctx):
             ver1 = ver2 = 1
             order2 = list(kinds)
             expect = True
+            changed = None
             if mode == "block-changed" and kinds:
                 kd = rng.choice(kinds)
-                vals2[kd], _ = mutate(kd, vals[kd], rng)
+                vals2[kd], how = mutate(kd, vals[kd], rng)
+                changed = dict(kind=kd, how=how, a=vals[kd], b=vals2[kd])
                 expect = False
             elif mode == "slots":
                 n2 = n1 + 1
@@ -331,7 +343,7 @@ def files(ctx):
                 got = safe_eq(t1, t2)
             ctx.case(("file", mode, str(kinds), k), nontrivial=bool(kinds), tags=("file:" + mode,))
             if got is not expect:
-                ctx.fail(f"files that {'have the same' if expect else 'differ in ' + mode} (blocks {kinds}) compare {got}", dict(file_pair=mode, kinds=kinds), ident=f"file equality ({mode})")
+                ctx.fail(f"files that {'have the same' if expect else 'differ in ' + mode} (blocks {kinds}) compare {got}", dict(file_pair=mode, kinds=kinds, changed=changed), ident=f"file equality ({mode})")
     finally:
         shutil.rmtree(d, ignore_errors=True)
 
